@@ -232,8 +232,57 @@ func runLimit(c *Case) *verdict {
 				return vf("decoder/packet-altered", "packet %d differs: %s", i, why)
 			}
 		}
+		// the same with the limit set while the reader is already waiting for the
+		// packet: the limit in force when the packet arrives is the one that counts
+		gr := &gatedReader{data: append([]byte{}, enc[i]...), gate: make(chan struct{}), waiting: make(chan struct{})}
+		d2 := packet.NewDecoder(gr)
+		type res struct {
+			g   packet.Generic
+			err error
+		}
+		done := make(chan res, 1)
+		go func() { g, err := d2.Read(); done <- res{g, err} }()
+		select {
+		case <-gr.waiting:
+		case <-time.After(ev.Ceiling()):
+			return vf("harness/gated-reader", "the decoder never asked for data")
+		}
+		d2.SetReadLimit(c.Limit)
+		close(gr.gate)
+		var r2 res
+		select {
+		case r2 = <-done:
+		case <-time.After(ev.Ceiling()):
+			return vf("hang/read", "Read did not return")
+		}
+		if over && r2.err != packet.ErrReadLimitExceeded {
+			return vf("limit/not-refused:set-while-waiting", "packet %d has %d bytes; SetReadLimit(%d) was called while Read was waiting for it: Read returned packet=%v err=%v", i, len(enc[i]), c.Limit, r2.g != nil, r2.err)
+		}
+		if !over && r2.err != nil {
+			return vf("limit/refused-within-limit", "packet %d has %d bytes, limit %d (set while waiting): %v", i, len(enc[i]), c.Limit, r2.err)
+		}
 	}
 	return nil
+}
+
+// gatedReader blocks its first Read until gate is closed (a connection on
+// which nothing has arrived yet) and signals that the read is pending.
+type gatedReader struct {
+	data    []byte
+	gate    chan struct{}
+	waiting chan struct{}
+	once    sync.Once
+}
+
+func (g *gatedReader) Read(p []byte) (int, error) {
+	g.once.Do(func() { close(g.waiting) })
+	<-g.gate
+	if len(g.data) == 0 {
+		return 0, io.EOF
+	}
+	n := copy(p, g.data)
+	g.data = g.data[n:]
+	return n, nil
 }
 
 // ---- (d) encoder: wire bytes are the concatenation of the encodings
